@@ -44,6 +44,26 @@ def told_items(rec, cfg, cidx):
     return out
 
 
+def pin_items(rec, cfg, cidx, lost):
+    """(container index, cpuset in the cache, stale?) for the containers whose runtime-side pin the model predicts:
+    granted ones (as told_items) and the ones that lost their grant in this segment but are still running"""
+    from fsoracle import parse_set
+    out = []
+    if not cfg.get('pinCPU', False):
+        return out
+    grants = {g['id']: g for g in (rec['ta']['grants'] or [])}
+    for c in rec['cache']:
+        g = grants.get(c['id'])
+        pr = c.get('prefs')
+        if not pr or c['state'] not in ('created', 'running') or pr.get('hide_ht') or c.get('preserve_cpu'):
+            continue
+        if g and g['cputype'] != 'preserve':
+            out.append((cidx(c['id']), sorted(parse_set(c['cpus'])), False))
+        elif not g and c['id'] in lost:
+            out.append((cidx(c['id']), sorted(parse_set(c['cpus'])), True))
+    return out
+
+
 def obs_term(ta, idx, cidx, told=()):
     ps = []
     for p in ta['pools']:
@@ -64,7 +84,7 @@ def same_grant(a, b):
     return a['pool'] == b['pool'] and a['exclusive'] == b['exclusive'] and a['cputype'] == b['cputype'] and a['portion'] == b['portion']
 
 
-def trace_terms(recs, cfgs=None, permissive=False):
+def trace_terms(recs, cfgs=None, permissive=False, pins_out=None):
     """recs: records of one script (Setup first). Returns (coq term of the segments, stats)."""
     cids = {}
     def cidx(c):
@@ -73,6 +93,7 @@ def trace_terms(recs, cfgs=None, permissive=False):
     cur = None
     prev = None
     tainted = False
+    lost = set()      # TA_Pins: live containers that lost their grant in this segment
     stats = dict(allocs=0, excl_allocs=0, releases=0, reserves=0, segments=0, skipped=0)
     def pools_sig(ta):
         return [(p['name'], p['parent'], p['iso'], p['res'], p['shar']) for p in ta['pools']]
@@ -112,11 +133,13 @@ def trace_terms(recs, cfgs=None, permissive=False):
                 return k if not par.get(n) else depth(par[n], k + 1)
             order = lambda i: (1 if grants[i]['exclusive'] else 0, -depth(grants[i]['pool']), last.get(i, -1), i)
             tterm, idx = tree_term(ta['pools'])
-            cur = dict(tree=tterm, idx=idx, sig=pools_sig(ta), groups=[])
+            cur = dict(tree=tterm, idx=idx, sig=pools_sig(ta), groups=[], pgroups=[])
+            lost = set()
             segs.append(cur)
             stats['segments'] += 1
             ops = ['OReserve %d %s' % (cidx(i), grant_term(grants[i], idx)) for i in sorted(grants, key=order)]
             stats['reserves'] += len(ops)
+            pops = ['PStep (%s)' % o for o in ops]
         else:
             idx = cur['idx']
             pg = {g['id']: g for g in (prev['ta']['grants'] or [])}
@@ -132,9 +155,22 @@ def trace_terms(recs, cfgs=None, permissive=False):
                 def depth(n, k=0):
                     return k if not par.get(n) else depth(par[n], k + 1)
                 new.sort(key=lambda i: (1 if grants[i]['exclusive'] else 0, -depth(grants[i]['pool'])))
+            pops = []
+            live_now = {c['id'] for c in rec['cache'] if c['state'] in ('created', 'running')}
             for i in rel:
                 ops.append('ORelease %d' % cidx(i))
                 stats['releases'] += 1
+                cc0 = next((c for c in rec['cache'] if c['id'] == i), None)
+                trackable = cc0 is not None and cc0.get('prefs') and not cc0['prefs'].get('hide_ht') and not cc0.get('preserve_cpu') and pg[i]['cputype'] != 'preserve'
+                if i not in grants and i in live_now and trackable and (cfgs[ri].get('pinCPU', False) if cfgs else False) and not tainted:
+                    # still running, no grant any more, told nothing: the pin goes stale (K3)
+                    from fsoracle import parse_set
+                    cc = next(c for c in rec['cache'] if c['id'] == i)
+                    pops.append('PLostGrantAt %d %s' % (cidx(i), nset(sorted(parse_set(cc['cpus'])))))
+                    lost.add(i)
+                else:
+                    pops.append('PStep (ORelease %d)' % cidx(i))
+            nrel = len(ops)
             for i in new:
                 g = grants[i]
                 pr = (cache.get(i) or {}).get('prefs')
@@ -155,11 +191,24 @@ def trace_terms(recs, cfgs=None, permissive=False):
             tainted = True
         elif new_seg:
             tainted = False
+        if not new_seg:
+            # lost grants first (their guard refers to the pins at the start of the request), then the other releases,
+            # then the allocations; a final no-op step re-tells every granted container
+            pops = [o for o in pops if o.startswith('PLostGrantAt')] + [o for o in pops if not o.startswith('PLostGrantAt')]
+            pops += ['PStep (%s)' % o for o in ops[nrel:]]
+            pops.append('PStep (OAllocFail 0)')
+        lost = {i for i in lost if i not in grants and any(c['id'] == i and c['state'] in ('created', 'running') for c in rec['cache'])}
+        pin_obs = pin_items(rec, cfgs[ri], cidx, lost) if cfgs and not tainted else []
+        stats['pins_checked'] = stats.get('pins_checked', 0) + len(pin_obs)
+        stats['stale_pins_checked'] = stats.get('stale_pins_checked', 0) + sum(1 for x in pin_obs if x[2])
+        cur['pgroups'].append('([%s], [%s])' % ('; '.join(pops), '; '.join('(%d, %s)' % (a, nlist(b)) for a, b, _ in pin_obs)))
         told = told_items(rec, cfgs[ri], cidx) if cfgs and not tainted else []
         stats['told_checked'] = stats.get('told_checked', 0) + len(told)
         cur['groups'].append('([%s], %s)' % ('; '.join(ops), obs_term(ta, idx, cidx, told)))
         prev = rec
     term = '[%s]' % ';\n'.join('(%s,\n  [%s])' % (s['tree'], ';\n   '.join(s['groups'])) for s in segs)
+    if pins_out is not None:
+        pins_out.append('[%s]' % ';\n'.join('(%s,\n  [%s])' % (s['tree'], ';\n   '.join(s['pgroups'])) for s in segs))
     return term, stats
 
 
@@ -208,4 +257,23 @@ def case_file(path, traces, cfgs=None, guards=False, permissive=False):
         f.write('Definition M := Eval vm_compute in [%s].\nPrint M.\n' % '; '.join('R%d' % k for k in range(len(traces))))
         if guards:
             f.write('Definition GG := Eval vm_compute in [%s].\nPrint GG.\n' % '; '.join('G%d' % k for k in range(len(traces))))
+    return allstats
+
+
+PHDR = 'From Coq Require Import ZArith List. Import ListNotations.\nFrom stdpp Require Import gmap.\nFrom NV Require Import TA_Model TA_Pins.\nOpen Scope nat_scope.\n'
+
+
+def pins_case_file(path, traces, cfgs):
+    """TA_Pins.pcheck_segments on every trace: the runtime-side pins of granted containers and of running containers that
+    lost their grant, against the cpusets in the implementation's cache"""
+    allstats = {}
+    with open(path, 'w') as f:
+        f.write(PHDR)
+        for k, (name, recs) in enumerate(traces):
+            out = []
+            _, st = trace_terms(recs, cfgs.get(name), False, out)
+            allstats[name] = {'pins_checked': st.get('pins_checked', 0), 'stale_pins_checked': st.get('stale_pins_checked', 0)}
+            f.write('Definition P%d : list (tree * list (list pop * list (nat * list nat))) := %s.\n' % (k, out[0]))
+            f.write('Definition Q%d := Eval vm_compute in pcheck_segments 0 P%d.\n' % (k, k))
+        f.write('Definition M := Eval vm_compute in [%s].\nPrint M.\n' % '; '.join('Q%d' % k for k in range(len(traces))))
     return allstats
